@@ -199,7 +199,7 @@ impl Scope {
                 if *calls_until_ext_bitfield == 0 {
                     if bits.with_read_position_at(*ext_bit_pos, |b| b.read_bit())? {
                         let read_number_of_ext_fields =
-                            bits.read_normally_small_length()? as usize + 1;
+                            (bits.read_normally_small_length()? as usize).saturating_add(1);
                         if read_number_of_ext_fields > *number_of_ext_fields {
                             #[cfg(feature = "descriptive-deserialize-errors")]
                             descriptions.push(ScopeDescription::warning(
